@@ -37,7 +37,7 @@ def generate(rng, tier, stats):
     for i in range(n):
         nn = rng.choice([2, 4, 6, 8, 10, 12])
         freq = rng.choice([0, 1, 10, 10, 60])
-        interval = rng.choice([0, 1, 30, 60, 60, 3600])
+        interval = rng.choice([0, 1, 30, 60, 60, 3600, 0.5, 1.5, 2.5, 1.999])   # also fractions of a second, also below one second
         inc = rng.choice([1, 1, 2, 5, "100%", "50%", "1%", "34%", "25%", "10%", "34%", 0])
         mp = rng.choice([250, 250, 1, 2, 3])
         force = {"scenario": rng.choice(["active", "active", "active_with_canary"]), "n": nn, "classes": CLASSES, "no_faults": rng.random() < 0.6, "fault_rate": 0.8,
@@ -52,11 +52,11 @@ def generate(rng, tier, stats):
             conds[:] = [x for x in conds if x["type"] != "Active"]
             k = rng.choice([0, 1, 2, 3])
             # (a False Active condition - the rollout was frozen or paused - does not start the ramp: t = 0)
-            conds.append(K.cond("Active", rng.choice(["True", "True", "True", "False"]), trans=-max(0, k * interval + rng.choice([-1, 0, 1]))))   # never in the future
+            conds.append(K.cond("Active", rng.choice(["True", "True", "True", "False"]), trans=-max(0, int(k * interval) + rng.choice([-1, 0, 1]))))   # never in the future
         # further reconciles at arbitrary times
         ops = [c["ops"][0]]
         for _ in range(rng.choice([2, 3, 4])):
-            d = rng.choice([0, 1, max(freq - 1, 0), freq, freq + 1, 2 * freq, 3 * freq, interval, interval + 1])
+            d = int(rng.choice([0, 1, max(freq - 1, 0), freq, freq + 1, 2 * freq, 3 * freq, interval, interval + 1, 3 * interval + 1, 9, 28]))
             if d:
                 ops.append(K.sleep(min(d, 7200)))
             faults = None
